@@ -27,7 +27,7 @@ Section Histories.
     apply (Q_trans _ (fst (fst (phase_tracks cfg tl3 (map t_id (tracks tl3)) [])))).
     - apply (Q_phase_tracks cfg Q (fun _ _ => True));
         [exact Q_refl|exact Q_trans|intros cb o tl0 _; apply Q_op|intros; eapply Q_upd; eauto|exact Q_rm
-        |intros; apply Q_ext; reflexivity|auto|auto].
+        |intros; apply Q_ext; reflexivity|auto|auto|auto].
     - apply Q_ext; [exact R1|exact R3].
   Qed.
   Lemma Q_step tl o : Q tl (fst (fst (step cfg tl o))).
